@@ -4,28 +4,28 @@ package main
 // each confirmed by reading the loop. A map loop classified as order-escaping that is not listed here is a violation.
 
 var c27Exceptions = map[string]string{
-	"(*internal/3rdparty/toml.MetaData).unifyMap: range tmap #1": "vendored TOML decoder: each key of the table is decoded into its own map entry; md.context is pushed and popped around each element (order-insensitive); only reads the manifest",
-	"(*internal/3rdparty/toml.MetaData).unifyStruct: range tmap #1": "vendored TOML decoder: each key sets the struct field of that name (distinct fields per key); cachedTypeFields is a memoising cache",
-	"(*internal/loader._Loader).loadProgram: range p.prog.Pkgs #1": "buildSSA(pkg) first builds the package's imports recursively and is idempotent per package (guarded by SSAPkg != nil); SSA value names are per function and SSA member tables are maps, so the creation order of independent packages does not reach the emitted text; the back end iterates packages through sorted name lists",
-	"(*internal/types.Checker).caseTypes: range seen #1": "duplicate-case detection: the loop only looks for an identical type to report an error (failure path); on success it has no effect",
-	"(*internal/types.Checker).collectObjects: range imp.scope.elems #1": "dot-import: every exported object of the imported package is inserted into the file scope under its own name (distinct keys); insertion conflicts are errors (failure path)",
-	"(*internal/types.Checker).collectObjects: range scope.elems #1": "conflict check between file-scope and package-scope names: only reports errors (failure path)",
-	"(*internal/types.Checker).initOrder: range n.pred #2": "go/types initialisation order: decrements the dependency count of every predecessor and fixes the priority queue; the queue orders by (ndeps, source order), so the popped sequence is independent of the visiting order",
-	"(*internal/types.Checker).lookupMethodFunc: range check.objMap #1": "search for the method of a given receiver type and name: at most one object matches (duplicate methods are rejected by the checker), so the first match is the only match",
+	"(*internal/3rdparty/toml.MetaData).unifyMap: range tmap #1":          "vendored TOML decoder: each key of the table is decoded into its own map entry; md.context is pushed and popped around each element (order-insensitive); only reads the manifest",
+	"(*internal/3rdparty/toml.MetaData).unifyStruct: range tmap #1":       "vendored TOML decoder: each key sets the struct field of that name (distinct fields per key); cachedTypeFields is a memoising cache",
+	"(*internal/loader._Loader).loadProgram: range p.prog.Pkgs #1":        "buildSSA(pkg) first builds the package's imports recursively and is idempotent per package (guarded by SSAPkg != nil); SSA value names are per function and SSA member tables are maps, so the creation order of independent packages does not reach the emitted text; the back end iterates packages through sorted name lists",
+	"(*internal/types.Checker).caseTypes: range seen #1":                  "duplicate-case detection: the loop only looks for an identical type to report an error (failure path); on success it has no effect",
+	"(*internal/types.Checker).collectObjects: range imp.scope.elems #1":  "dot-import: every exported object of the imported package is inserted into the file scope under its own name (distinct keys); insertion conflicts are errors (failure path)",
+	"(*internal/types.Checker).collectObjects: range scope.elems #1":      "conflict check between file-scope and package-scope names: only reports errors (failure path)",
+	"(*internal/types.Checker).initOrder: range n.pred #2":                "go/types initialisation order: decrements the dependency count of every predecessor and fixes the priority queue; the queue orders by (ndeps, source order), so the popped sequence is independent of the visiting order",
+	"(*internal/types.Checker).lookupMethodFunc: range check.objMap #1":   "search for the method of a given receiver type and name: at most one object matches (duplicate methods are rejected by the checker), so the first match is the only match",
 	"(*internal/types.Checker).processGlobalEmbed: range check.objMap #1": "per-constant effect: each #wa:embed constant gets its own initialiser; early returns are error paths",
-	"(*internal/types.Checker).recordUntyped: range check.untyped #1": "records type and value of each untyped expression under its own key (distinct keys); the debug branch is constant false",
-	"internal/ssa.removeDeadPhis: range newPhis #1": "x/tools ssa: marks live phis (set union: order-insensitive fixpoint)",
-	"internal/ssa.removeDeadPhis: range newPhis #2": "x/tools ssa: removes each dead phi from its own block and nils its slot; per-element effect",
-	"internal/types.NewMethodSet: range fset #1": "go/types method sets: adds collision markers under distinct names; the resulting list is sorted by unique name before use",
-	"internal/types.NewMethodSet: range mset #1": "go/types method sets: adds methods at this depth under distinct names; the resulting list is sorted by unique name before use",
-	"internal/types.dependencyGraph: range M #1": "go/types dependency graph: edges are inserted into per-node sets (set union is order-insensitive); the final node list is sorted by source order before scheduling",
-	"internal/types.dependencyGraph: range M #2": "go/types dependency graph: edges are inserted into per-node sets (set union is order-insensitive); the final node list is sorted by source order before scheduling",
-	"internal/types.dependencyGraph: range n.pred #1": "go/types dependency graph: edges are inserted into per-node sets (set union is order-insensitive); the final node list is sorted by source order before scheduling",
-	"internal/types.dependencyGraph: range n.succ #1": "go/types dependency graph: edges are inserted into per-node sets (set union is order-insensitive); the final node list is sorted by source order before scheduling",
-	"internal/types.dependencyGraph: range objMap[obj].deps #1": "go/types dependency graph: edges are inserted into per-node sets (set union is order-insensitive); the final node list is sorted by source order before scheduling",
-	"internal/types.findPath: range objMap[from].deps #1": "only used to print an initialisation-cycle error (failure path)",
-	"internal/types.infoFromType: range all #1": "collects embedded methods into info.methods; consumers sort methods by unique name (assertSortedMethods / sort in completeInterface) before exposing them",
-	"internal/types.lookupType: range m #1": "search for an identical type in the type-switch map: Identical is an equivalence and the map holds no two identical types, so at most one entry matches",
+	"(*internal/types.Checker).recordUntyped: range check.untyped #1":     "records type and value of each untyped expression under its own key (distinct keys); the debug branch is constant false",
+	"internal/ssa.removeDeadPhis: range newPhis #1":                       "x/tools ssa: marks live phis (set union: order-insensitive fixpoint)",
+	"internal/ssa.removeDeadPhis: range newPhis #2":                       "x/tools ssa: removes each dead phi from its own block and nils its slot; per-element effect",
+	"internal/types.NewMethodSet: range fset #1":                          "go/types method sets: adds collision markers under distinct names; the resulting list is sorted by unique name before use",
+	"internal/types.NewMethodSet: range mset #1":                          "go/types method sets: adds methods at this depth under distinct names; the resulting list is sorted by unique name before use",
+	"internal/types.dependencyGraph: range M #1":                          "go/types dependency graph: edges are inserted into per-node sets (set union is order-insensitive); the final node list is sorted by source order before scheduling",
+	"internal/types.dependencyGraph: range M #2":                          "go/types dependency graph: edges are inserted into per-node sets (set union is order-insensitive); the final node list is sorted by source order before scheduling",
+	"internal/types.dependencyGraph: range n.pred #1":                     "go/types dependency graph: edges are inserted into per-node sets (set union is order-insensitive); the final node list is sorted by source order before scheduling",
+	"internal/types.dependencyGraph: range n.succ #1":                     "go/types dependency graph: edges are inserted into per-node sets (set union is order-insensitive); the final node list is sorted by source order before scheduling",
+	"internal/types.dependencyGraph: range objMap[obj].deps #1":           "go/types dependency graph: edges are inserted into per-node sets (set union is order-insensitive); the final node list is sorted by source order before scheduling",
+	"internal/types.findPath: range objMap[from].deps #1":                 "only used to print an initialisation-cycle error (failure path)",
+	"internal/types.infoFromType: range all #1":                           "collects embedded methods into info.methods; consumers sort methods by unique name (assertSortedMethods / sort in completeInterface) before exposing them",
+	"internal/types.lookupType: range m #1":                               "search for an identical type in the type-switch map: Identical is an equivalence and the map holds no two identical types, so at most one entry matches",
 }
 
 var c27SourceExceptions = map[string]string{}
